@@ -91,6 +91,9 @@ namespace verif48 {
     using Matrix = tfel::math::matrix<real>;
     //! number of unknowns
     size_type n = 1;
+    //! if true, a successful attempt converges at its iteration `at` (several Newton iterations,
+    //! so that the acceleration algorithms run); otherwise as soon as the solver allows
+    bool late_convergence = false;
     std::vector<Attempt> script;
     mutable std::size_t pos = 0;
     mutable Attempt cur;
@@ -175,7 +178,9 @@ namespace verif48 {
                           const unsigned int,
                           const real,
                           const real) const override {
-      return cur.kind != 2;
+      if (cur.kind == 2) return false;
+      if (late_convergence && (cur.kind == 0) && (call < cur.at)) return false;
+      return true;
     }
     std::vector<std::string> getFailedCriteriaDiagnostic(const mtest::StudyCurrentState&,
                                                          const Vector&,
